@@ -224,6 +224,23 @@ Definition spec_delete_key (strs : gmap positive bytes) (F : forest) (object nam
     : forest :=
   let '(F', it) := spec_detach_key strs F object name case_sensitive in spec_delete F' it.
 
+(** replace_item_in_object / cJSON_ReplaceItemInObject[CaseSensitive]: the replacement (a detached
+    root) gets an owned copy [copy] of the name as its key (its old owned key is released) —
+    this happens even when no member is then found —, the member is looked up BY THE COPY in
+    the string heap [strs] of that moment, and replaced.  [copy = None]: allocation failure. *)
+Definition spec_replace_key (strs : gmap positive bytes) (F : forest) (object string replacement : ptr)
+    (case_sensitive : bool) (copy : ptr) : forest * bool :=
+  match replacement, string with
+  | Some r, Some _ =>
+      match copy, find_root r F with
+      | Some nk, Some tr =>
+          let F1 := set_data r (rd_owned_key (tdata tr) nk) F in
+          spec_replace F1 object (spec_get_key strs F1 object (Some nk) case_sensitive) replacement
+      | _, _ => (F, false)
+      end
+  | _, _ => (F, false)
+  end.
+
 (** * value setters (data of one node; links, children and ownership untouched) *)
 Definition rd_set_number (d : rdata) (n : dbl) : rdata :=
   mkRD (rd_type d) (rd_vstr d) (sat_int n) n (rd_key d) (rd_ref d).
